@@ -382,6 +382,7 @@ struct R
   bool tainted  = false; // a gap exists: memory safety only from now on
   bool stop     = false; // a failure that is not a known finding: the case ends
   bool giveUp   = false; // state no longer comparable after a known finding
+  bool endAfterStep = false;
   std::string opn;
   int step = -1;
   std::vector<Failure> deferred;
@@ -589,6 +590,10 @@ static bool checkState(R& r)
   }
   // --- roles
   for (int t = 0; t < NLOC; t++)
+    for (int k = 0, n = db.getLocatorNumber(LOC(t)); k < n; k++)
+      if (db.getColIdxByUID(db.getUIDByLocator(LOC(t), k)) < 0)
+        return r.fail("roles:dead-uid", fmt("role %s rank %d points to identifier %d which has no column", lk(LOC(t)).c_str(), k, db.getUIDByLocator(LOC(t), k)));
+  for (int t = 0; t < NLOC; t++)
   {
     const auto& l = m.roles[(size_t)t];
     int n         = db.getLocatorNumber(LOC(t));
@@ -761,7 +766,14 @@ struct Interp
   // it, multiple additions use radices that no other operation uses.
   std::string radix(int nadd) const
   {
-    if (nadd <= 1 || r.ambig) return o.name;
+    if (nadd > 1 && r.ambig)
+    {
+      // names X-k now exist: patterns with '.' supplied later would no longer designate themselves only,
+      // the history ends after this step (the step itself is checked, ambiguity included)
+      r.endAfterStep = true;
+      return o.name;
+    }
+    if (nadd <= 1) return o.name;
     std::string s = "M";
     for (char ch : o.name)
       if (isalpha((unsigned char)ch)) s.push_back(ch);
@@ -1739,6 +1751,7 @@ static void runDb(const DbCase& c, Ctx& ctx)
     if (r.stop) break;
     checkState(r);
     if (r.stop) break;
+    if (r.endAfterStep) r.giveUp = true;
     if (r.deferred.size() > nd)
     {
       // a known finding: take the library's table as the new reference when it is a consistent one
